@@ -144,12 +144,19 @@ class Gen:
         self.push()
         cl = self.clauses()
         self.loop_depth += 1
-        body = self.int_expr(depth + 1)
-        if self.rng.random() < 0.15:
-            body = g.seq([g.if_(self.cond(1), self.rng.choice([g.brk(0), g.cont(0), g.brk(0, self.list_expr(2))])), body])
+        body = self.yield_body(depth + 1, 0.15)
         self.loop_depth -= 1
         self.pop()
         return g.for_yield(cl, body)
+
+    def yield_body(self, depth, p):
+        """the yielded expression, now and then preceded by a conditional exit of this or an outer loop
+        (with and without a value): a yield loop left that way hands on what the exit says"""
+        body = self.int_expr(depth)
+        if self.rng.random() < p:
+            lv = 0 if self.rng.random() < 0.5 else self.rng.randint(0, self.loop_depth - 1)
+            body = g.seq([g.if_(self.cond(1), self.rng.choice([g.brk(lv), g.cont(lv), g.brk(lv, self.list_expr(2))])), body])
+        return body
 
     def for_stmt(self):
         self.push()
@@ -159,7 +166,7 @@ class Gen:
         if kind < 0.6:
             node = g.for_do(cl, self.block(3))
         elif kind < 0.85:
-            node = g.for_yield(cl, self.int_expr(1), self.rng.choice(["", "", "sum", "max", "min", "count", "first", "last", "len"]))
+            node = g.for_yield(cl, self.yield_body(1, 0.3), self.rng.choice(["", "", "sum", "max", "min", "count", "first", "last", "len"]))
         else:
             ints = self.visible("int")
             key = g.binop("+", I(self.rng.choice(ints)), L(self.rng.randint(0, 2))) if ints else L(1)
